@@ -20,7 +20,7 @@ func init() {
 	register(&Rule{ID: "VF-07", Title: "segment IDs come from the persisted counter, which is always incremented and part of the persisted state",
 		Props: []string{"C13", "C02", "C04"}, Floor: 4, Run: runVF07})
 	register(&Rule{ID: "VF-14", Title: "the orphan sweep deletes List() minus the segments metadata names",
-		Props: []string{"C01", "C13", "C03"}, Floor: 3, Run: runVF14})
+		Props: []string{"C01", "C13", "C03", "C05"}, Floor: 3, Run: runVF14})
 	register(&Rule{ID: "VF-15", Title: "whatever a truncation removes from the segment list is handed to the finalizer for close + delete",
 		Props: []string{"C04", "C13"}, Floor: 3, Run: runVF15})
 	register(&Rule{ID: "VF-16", Title: "no storage error is dropped",
